@@ -59,6 +59,15 @@ HeaderRowOK(e) ==
                 /\ r.v.retain = h.v.retain /\ r.v.remaining_len = e.rls[i]
             ELSE r.k = "err" /\ r.e = h.e /\ r.a = h.a
 
+\* the public from_u8 constructors of the wire-numbered enums: exactly the standard's table for that type
+QoSTable == << <<0, "Level0">>, <<1, "Level1">>, <<2, "Level2">> >>
+PropIdTable == [i \in 1..Len(PropTable) |-> <<PropTable[i].id, PropTable[i].name>>]
+TableOf(n) == CASE n = "v3.ConnectReturnCode" -> V3ConnectRC [] n = "v3.SubscribeReturnCode" -> V3SubRC
+                [] n = "RetainHandling" -> RetainHandlingRC [] n = "PropertyId" -> PropIdTable [] n = "QoS" -> QoSTable
+                [] OTHER -> RCTable(n)
+CodeTableOK(e) == /\ Len(e.rows) = 256
+                  /\ \A i \in 1..256 : e.rows[i][1] = i - 1 /\ e.rows[i][2] = Lookup(TableOf(e.enum), i - 1)
+
 \* ---- C20
 Documented(m) ==
     CASE m \in {"hdr_type", "hdr_flags"} -> {"InvalidHeader"}
@@ -151,6 +160,7 @@ OK13Table(e) == /\ \A i \in 1..3 : TableRow(e.v3[i], "v3", e)
 Accept(e) ==
     CASE e.ev = "Strict"  -> (Prop = "C04" => OK04(e))
       [] e.ev = "HeaderRow" -> (Prop = "C04" => HeaderRowOK(e))
+      [] e.ev = "CodeTable" -> (Prop = "C04" => CodeTableOK(e))
       [] e.ev = "Mal"     -> (Prop = "C20" => OK20(e))
       [] e.ev = "Reenc"   -> (Prop = "C11" => OK11(e))
       [] e.ev = "Decoded" -> (Prop = "C12" => OK12(e))
